@@ -276,6 +276,18 @@ MakeVptr(p, id, st, dyn, oid, ind, route) ==
     /\ obs' = [k |-> "vptr", oid |-> oid]
     /\ UNCHANGED <<classes, methods, defs, inst, fresh, handler, dead>>
 
+(* An indirect handle holds the address of its class's v-table pointer, which update fills in later: for the exact    *)
+(* static type (no look-up is needed) it may be created before update has run, or while the catalogs have changed  *)
+(* since; it becomes usable with the next successful update.  The class must be registered by then -- here: now.    *)
+MakeVptrEarly(p, id, st, dyn, oid, ind, route) ==
+    /\ ~dead /\ ~(fresh[p] /\ inst[p].ok)
+    /\ ind /\ dyn = st /\ dyn \in ClassSet(classes[p])
+    /\ id \notin DOMAIN vps
+    /\ vps' = [x \in DOMAIN vps \cup {id} |->
+                 IF x = id THEN [p |-> p, dyn |-> dyn, oid |-> oid, ind |-> ind, epoch |-> inst[p].epoch] ELSE vps[x]]
+    /\ obs' = [k |-> "vptr", oid |-> oid]
+    /\ UNCHANGED <<classes, methods, defs, inst, fresh, handler, dead>>
+
 (* checked policies (C15): an unregistered dynamic class is reported as an   *)
 (* unknown class carrying that class; final with another dynamic type as a   *)
 (* method-table error carrying the dynamic type.  Nothing is created.       *)
